@@ -38,7 +38,7 @@ TECHNIQUE = "Lean 4 proof (tree construction, chunk additivity via C01+C03) + ma
 LEAN_MODULE = "Hg.Props.C14"
 THEOREMS = ["Hg.C14.mkTree_wf", "Hg.C14.make_entries", "Hg.C14.make_eq_direct", "Hg.C14.chunks_add_up", "Hg.C14.mkTree_goodRun",
             "Hg.C14.resolve_bool", "Hg.C14.resolve_nd", "Hg.C14.resolve_empty", "Hg.C14.resolve_one"]
-CASES = {"quick": 150, "thorough": 4000}
+CASES = {"quick": 240, "thorough": 4000}
 RULE = ("per case one frame of 3..30 rows with up to 11 columns, 2..7 features of 1-3 dimensions, a random binning mode and explicit "
         "bin_specs (all kinds, aliases, `{}` entries), a random partition into 1..4 chunks taken with iloc, a random index; "
         "distinct = hash of parameters")
@@ -99,6 +99,10 @@ def gen_params(rng, tier):
     cols = {}
     for c in FLOAT_COLS:
         cols[c] = [None if (c != "yf" and rng.random() < 0.15) else rng.randint(-32, 64) / 8.0 for _ in range(n)]
+    nan_col = None
+    if rng.random() < 0.15:
+        nan_col = rng.choice(["xf", "zf"])
+        cols[nan_col] = [None] * n   # a column without any valid value
     for c in INT_COLS:
         cols[c] = [rng.randint(0, 3) if c == "ci" else rng.randint(-5, 12) for _ in range(n)]
     for c in BOOL_COLS:
@@ -142,6 +146,11 @@ def gen_params(rng, tier):
                     else:
                         entry.append(gen_axis_spec(rng, c, last=(i == len(fc) - 1)))
                 specs[f] = entry
+    if nan_col is not None and feats is not None and nan_col in present and rng.random() < 0.7:
+        # the column without values is histogrammed on its own, with whatever the binning mode decides for it
+        if nan_col not in feats:
+            feats.insert(0, nan_col)
+        specs.pop(nan_col, None)
     k = rng.randint(1, min(4, n))
     assign = [rng.randrange(k) for _ in range(n)]
     for j in range(k):  # no empty chunk
@@ -456,7 +465,8 @@ class C14Exec(execs.PyExec):
         other = keep.copy(deep=True)
         for c in other.columns:
             if c in FLOAT_COLS:
-                other[c] = other[c] * 1.5 + 3.25
+                # other values, and valid values where the first frame had none
+                other[c] = (other[c] * 1.5 + 3.25).fillna(2.75)
             elif c in INT_COLS and c != "ci":
                 other[c] = other[c] + 7
         ho = self.call(other, p, features=list(feats), bin_specs=copy.deepcopy(specs), time_axis=tax, var_dtype=dict(vdt))
